@@ -266,6 +266,9 @@ func (vc *VC) loopMod(li *loopInfo) ModSet {
 				m.add(l, i)
 				l, i = locMapVal(x.Map.Type())
 				m.add(l, i)
+				if g := globalOf(x.Map); g != "" {
+					m.add(mapWritesLoc(g), LocInfo{Kind: "G", Val: types.Typ[types.Int]})
+				}
 			case ssa.CallInstruction:
 				m.union(vc.callMod(x.Common()))
 			}
@@ -970,6 +973,11 @@ func (f *Frame) instr(instr ssa.Instruction) bool {
 		k := f.materialize(f.val(x.Key))
 		v := f.materialize(f.val(x.Value))
 		f.siteMapWrite(x)
+		if g := globalOf(x.Map); g != "" {
+			// ghost: number of writes to this package-level map (see mapwrites() in specifications)
+			c := vc.he.get(f.cur, mapWritesLoc(g), "Int")
+			vc.he.set(f.cur, mapWritesLoc(g), "Int", vc.sc.define("mapwrites", "Int", app("+", c, "1")))
+		}
 		f.safe("mapnil", app("not", eq(m.t, "0")), "assignment to entry in possibly nil map "+x.Map.Name(), x.Pos())
 		l, li := locMapDom(x.Map.Type())
 		srt := li.sort(te)
